@@ -4,6 +4,7 @@
 package mime
 
 import (
+	"fmt"
 	"strings"
 
 	"verifharness/internal/rng"
@@ -38,6 +39,77 @@ type Case struct {
 	// same, so the model is not told
 	Preset   string
 	PresetBy string // handler-AddHeader | handler-Header().Set | container-filter | webservice-filter | route-filter
+	// Hist: the history of the ROUTE OBJECT before the judged request (nil: container and route are
+	// created for this request alone).  The route, its web service and its container are created
+	// once; earlier requests are served on them, and writers for some of the produced types are
+	// registered only at some point of that history (late, lazy registration).  The judged request
+	// comes last; what it must be answered depends on the registry of that moment only, so the model
+	// is told that registry and nothing of the history
+	Hist *Hist
+}
+
+// Late is a produced media type whose writer is registered during the history of the route.
+type Late struct {
+	Format string // name pattern, %d = a number that makes the name new in this process (the registry cannot forget)
+	Codec  string // json | xml | csv
+	Name   string // the name in force (renewed by every execution)
+}
+
+// Hist is what happened to the route object before the judged request.
+type Hist struct {
+	Late    []Late
+	Traffic []*Case // earlier requests on the same route: only Absent, Ranges, WS1 are used
+	RegAt   int     // the late writers are registered after this many of the earlier requests (0 … len(Traffic))
+}
+
+// LateFormats: the names late writers are registered under; some contain names that are registered
+// all along (the reverse lookup of accessorAt finds a writer for them even before their own exists).
+// Every pattern ends after the number, so that no such name is a substring of another one.
+var LateFormats = []Late{
+	{Format: "application/vnd.late%d+json", Codec: "json"},
+	{Format: "application/vnd.late%d+xml", Codec: "xml"},
+	{Format: "text/late%d-csv", Codec: "csv"},
+	{Format: "application/json-late%d-v", Codec: "json"},
+	{Format: "application/xml-late%d-v", Codec: "xml"},
+	{Format: "application/x-late%d+xml", Codec: "xml"},
+}
+
+func (l Late) At(k int) string { return fmt.Sprintf(l.Format, k) }
+
+// rename replaces a media type name everywhere in the case.
+func (c *Case) rename(old, new string) {
+	for i, p := range c.Produces {
+		if p == old {
+			c.Produces[i] = new
+		}
+	}
+	for i := range c.Ranges {
+		if c.Ranges[i].Media == old {
+			c.Ranges[i].Media = new
+		}
+	}
+	c.Preset = strings.Replace(c.Preset, old, new, -1)
+	if c.Hist != nil {
+		for _, t := range c.Hist.Traffic {
+			for i := range t.Ranges {
+				if t.Ranges[i].Media == old {
+					t.Ranges[i].Media = new
+				}
+			}
+		}
+	}
+}
+
+// RegistryAtJudgement is the registry the judged request meets: the process-wide one plus the late
+// writers of this case's history.
+func (c *Case) RegistryAtJudgement() []string {
+	reg := append([]string{}, Registry...)
+	if c.Hist != nil {
+		for _, l := range c.Hist.Late {
+			reg = append(reg, l.Name)
+		}
+	}
+	return reg
 }
 
 // PresetBys are the places a Content-Type can come from before the entity is written.
@@ -135,7 +207,9 @@ func obsList(kw string, os []Obs) *sx.Node {
 }
 
 // Line is the protocol line of the case with the observed answers.
-func (c *Case) Line(id int, real, realv []Obs) string { return c.LineReg(id, real, realv, Registry) }
+func (c *Case) Line(id int, real, realv []Obs) string {
+	return c.LineReg(id, real, realv, c.RegistryAtJudgement())
+}
 
 // LineReg is Line for a given registry (recorded regressions name the registry they were recorded with).
 func (c *Case) LineReg(id int, real, realv []Obs, reg []string) string {
@@ -146,7 +220,14 @@ func (c *Case) LineReg(id int, real, realv []Obs, reg []string) string {
 
 // Signature identifies the input (without the observed answers).
 func (c *Case) Signature() string {
-	return c.Router + "|" + strings.Join(c.Produces, ",") + "|" + c.Default + "|" + map[bool]string{true: "absent", false: "present"}[c.Absent] + "|" + c.Accept() + "|" + c.Variant() + "|" + c.Preset + "|" + c.PresetBy
+	sig := c.Router + "|" + strings.Join(c.Produces, ",") + "|" + c.Default + "|" + map[bool]string{true: "absent", false: "present"}[c.Absent] + "|" + c.Accept() + "|" + c.Variant() + "|" + c.Preset + "|" + c.PresetBy
+	if c.Hist != nil {
+		sig += fmt.Sprintf("|history:%d", c.Hist.RegAt)
+		for _, t := range c.Hist.Traffic {
+			sig += "|" + map[bool]string{true: "absent", false: "present"}[t.Absent] + ":" + t.Accept()
+		}
+	}
+	return sig
 }
 
 func (c *Case) Clone() Case {
@@ -155,6 +236,14 @@ func (c *Case) Clone() Case {
 	d.Ranges = make([]Range, len(c.Ranges))
 	for i, r := range c.Ranges {
 		d.Ranges[i] = Range{Media: r.Media, Params: append([]Param{}, r.Params...)}
+	}
+	if c.Hist != nil {
+		h := &Hist{Late: append([]Late{}, c.Hist.Late...), RegAt: c.Hist.RegAt}
+		for _, t := range c.Hist.Traffic {
+			tc := t.Clone()
+			h.Traffic = append(h.Traffic, &tc)
+		}
+		d.Hist = h
 	}
 	return d
 }
